@@ -21,3 +21,20 @@ package xerrors
 
 //@ loop Join#2
 //@   invariant 0 <= it && it <= len(ranged)
+
+// The joined error (what Unsubscribe re-raises, C03; what errors.Is / errors.As walk through, C07): Unwrap hands out
+// every failure that was kept, in order; Error never indexes past the failures it has.
+
+//@ type joinError
+//@   const errs
+
+//@ func (*joinError).Unwrap
+//@   props C03 C07
+//@   ensures [keeps-every-failure|C03,C07] result == errs
+
+//@ func (*joinError).Error
+//@   props C07
+//@   requires len(errs) >= 1
+
+//@ loop (*joinError).Error#0
+//@   invariant 0 <= it && it <= len(ranged)
